@@ -1,6 +1,7 @@
 """Verdicts, violation keys, known findings, evidence files."""
 import hashlib, json, os, sys, time
 
+from . import facts
 VERIF = os.path.dirname(os.path.dirname(os.path.abspath(__file__)))
 EVID = os.path.join(VERIF, "evidence")
 KNOWN = os.path.join(VERIF, "known_findings.json")
@@ -117,6 +118,7 @@ class Ctx:
                 "mir_bodies": sum(1 for f in self.prog.fns.values() if f.has_body),
                 "call_sites": sum(1 for f in self.prog.fns.values() if f.has_body for _ in f.calls()),
                 "configurations": self.configs,
+                "renamed_private_helpers_resolved_by_signature": dict(facts.ALIASES),
             },
             "known_findings_reported": [v["key"] for v in kf],
             "violation_keys": [v["key"] for v in new],
